@@ -512,6 +512,11 @@ func (s *transactionStore) Watch(ctx context.Context, ch chan<- configapi.Transa
 				delete(s.watchers, id)
 			}
 			s.mu.Unlock()
+			// The event pump may already hold this watcher's channel: keep receiving so that it never blocks
+			go func() {
+				for range eventCh {
+				}
+			}()
 		}()
 
 		// The channel is closed here and nowhere else
@@ -538,9 +543,13 @@ func (s *transactionStore) Watch(ctx context.Context, ch chan<- configapi.Transa
 					if ctx.Err() != nil {
 						return
 					}
-					ch <- configapi.TransactionEvent{
+					select {
+					case ch <- configapi.TransactionEvent{
 						Type:        configapi.TransactionEvent_REPLAYED,
 						Transaction: *transaction,
+					}:
+					case <-ctx.Done():
+						return
 					}
 				}
 			} else {
@@ -584,9 +593,13 @@ func (s *transactionStore) Watch(ctx context.Context, ch chan<- configapi.Transa
 						transaction := entry.Value
 						transaction.Version = uint64(entry.Version)
 						transaction.ID.Index = configapi.Index(entry.Index)
-						ch <- configapi.TransactionEvent{
+						select {
+						case ch <- configapi.TransactionEvent{
 							Type:        configapi.TransactionEvent_REPLAYED,
 							Transaction: *transaction,
+						}:
+						case <-ctx.Done():
+							return
 						}
 					}
 				}
@@ -596,12 +609,12 @@ func (s *transactionStore) Watch(ctx context.Context, ch chan<- configapi.Transa
 		for {
 			select {
 			case event := <-eventCh:
-				ch <- event
+				select {
+				case ch <- event:
+				case <-ctx.Done():
+					return
+				}
 			case <-ctx.Done():
-				go func() {
-					for range eventCh {
-					}
-				}()
 				return
 			}
 		}
